@@ -357,8 +357,11 @@ func (r *blockReader) Value(seg Segment) []byte {
 		s := r.segments.At(line)
 		if i < 0 {
 			i = s.Start
+			ret = s.ConcatPadding(ret)
+		} else {
+			// the first line contributes the padding of the segment itself
+			ret = seg.ConcatPadding(ret)
 		}
-		ret = s.ConcatPadding(ret)
 		for ; i < seg.Stop && i < s.Stop; i++ {
 			ret = append(ret, r.source[i])
 		}
